@@ -100,6 +100,17 @@ func (ex *Exec) intrinsicInvoke(it types.Type, m *types.Func) intrinsicFn {
 			s.heapSet(name, Store(m, SlBase(p), nc))
 			return callOut{v: TupleV{Scalar{n}, Scalar{errv}}}
 		}
+	case "github.com/eclipse/paho.mqtt.golang/packets.ControlPacket.Write":
+		// trusted: serialises the packet's fields as MQTT 3.1.1 into w; may fail
+		return func(ex *Exec, s *State, instr ssa.Instruction, args []Val) callOut {
+			e := s.declare(ex.g.fresh("werr"), SIface)
+			ex.assumeWF(s, e, nil)
+			return callOut{v: Scalar{e}}
+		}
+	case "github.com/eclipse/paho.mqtt.golang/packets.ControlPacket.String":
+		return func(ex *Exec, s *State, instr ssa.Instruction, args []Val) callOut {
+			return callOut{v: Scalar{ex.opaqueStr(s)}}
+		}
 	case "context.Context.Done":
 		return func(ex *Exec, s *State, instr ssa.Instruction, args []Val) callOut {
 			c := s.declare(ex.g.fresh("ctxdone"), SRef)
@@ -219,6 +230,88 @@ func (ex *Exec) intrinsic(f *ssa.Function) intrinsicFn {
 		return func(ex *Exec, s *State, instr ssa.Instruction, args []Val) callOut {
 			ex.usedAssume["A-ATOMICPKG: sync/atomic operations are atomic"] = true
 			return callOut{v: ex.load(s, instr, args[0])}
+		}
+	case "github.com/eclipse/paho.mqtt.golang/packets.NewControlPacket":
+		return func(ex *Exec, s *State, instr ssa.Instruction, args []Val) callOut {
+			// trusted: returns a fresh zero-valued *XPacket with FixedHeader.MessageType set
+			names := map[string]string{"1": "ConnectPacket", "2": "ConnackPacket", "3": "PublishPacket", "4": "PubackPacket", "5": "PubrecPacket",
+				"6": "PubrelPacket", "7": "PubcompPacket", "8": "SubscribePacket", "9": "SubackPacket", "10": "UnsubscribePacket",
+				"11": "UnsubackPacket", "12": "PingreqPacket", "13": "PingrespPacket", "14": "DisconnectPacket"}
+			code := ex.asScalar(args[0])
+			var n string
+			if v, ok := parseBV(code.S); ok {
+				n = names[fmt.Sprint(v)]
+			}
+			if n == "" {
+				ex.fail("NewControlPacket with non-constant or unknown type %s", code.S)
+			}
+			pp := ex.g.pkgs["github.com/eclipse/paho.mqtt.golang/packets"]
+			tn, ok := pp.Pkg.Scope().Lookup(n).(*types.TypeName)
+			if !ok {
+				ex.fail("paho type %s not found", n)
+			}
+			pv := ex.doAlloc(s, tn.Type()).(PtrV)
+			st := tn.Type().Underlying().(*types.Struct)
+			for i := 0; i < st.NumFields(); i++ {
+				if st.Field(i).Name() == "FixedHeader" {
+					fh := st.Field(i).Type().Underlying().(*types.Struct)
+					for j := 0; j < fh.NumFields(); j++ {
+						if fh.Field(j).Name() == "MessageType" {
+							ex.storeAt(s, pv.Base, tn.Type(), []int{i, j}, Scalar{code})
+						}
+					}
+				}
+			}
+			return callOut{v: Scalar{ex.makeIface(s, types.NewPointer(tn.Type()), pv)}}
+		}
+	case "(*golang.org/x/sync/errgroup.Group).Go":
+		return func(ex *Exec, s *State, instr ssa.Instruction, args []Val) callOut {
+			// spawns a goroutine: the function runs as a separate step
+			// (A-ATOMIC); its precondition must hold from now on
+			if p, ok := args[0].(PtrV); ok {
+				ex.nilCheck(s, instr, p.Base)
+			}
+			ex.callbackEnabled(s, instr, args[1])
+			ex.usedAssume["A-ATOMIC: goroutine bodies verified as separate steps"] = true
+			return callOut{}
+		}
+	case "bytes.Split":
+		return func(ex *Exec, s *State, instr ssa.Instruction, args []Val) callOut {
+			// trusted, uninterpreted: some slice of sub-slices
+			r := s.declare(ex.g.fresh("split"), SSlice)
+			ex.assumeWF(s, r, nil)
+			return callOut{v: Scalar{r}}
+		}
+	case "(*sync.Map).Load":
+		return func(ex *Exec, s *State, instr ssa.Instruction, args []Val) callOut {
+			dn, vn, dom, val, base := ex.syncMapArrs(s, args[0])
+			_, _ = dn, vn
+			k := ex.asScalar(args[1])
+			has := Select(Select(dom, base), k)
+			v := Select(Select(val, base), k)
+			ex.assumeWF(s, v, nil)
+			ex.usedAssume["A-MUTEX: sync.Map is an atomic map (modelled as domain/value arrays)"] = true
+			return callOut{v: TupleV{Scalar{Ite(has, v, TNilI)}, Scalar{has}}}
+		}
+	case "(*sync.Map).Store":
+		return func(ex *Exec, s *State, instr ssa.Instruction, args []Val) callOut {
+			dn, vn, dom, val, base := ex.syncMapArrs(s, args[0])
+			k := ex.asScalar(args[1])
+			v := ex.asScalar(args[2])
+			s.heapSet(dn, Store(dom, base, Store(Select(dom, base), k, TTrue)))
+			s.heapSet(vn, Store(val, base, Store(Select(val, base), k, v)))
+			return callOut{}
+		}
+	case "(*sync.Map).Delete":
+		return func(ex *Exec, s *State, instr ssa.Instruction, args []Val) callOut {
+			dn, _, dom, _, base := ex.syncMapArrs(s, args[0])
+			k := ex.asScalar(args[1])
+			s.heapSet(dn, Store(dom, base, Store(Select(dom, base), k, TFalse)))
+			return callOut{}
+		}
+	case "(*sync.Map).Range":
+		return func(ex *Exec, s *State, instr ssa.Instruction, args []Val) callOut {
+			return ex.syncMapRange(s, instr, args)
 		}
 	case "time.AfterFunc":
 		return func(ex *Exec, s *State, instr ssa.Instruction, args []Val) callOut {
